@@ -18,7 +18,19 @@ pub fn run_one(out: &mut Out, sc: usize, s: &J) {
     if s["kind"] == "datum" {
         let b = get_bytes(&s["bytes"]);
         let b2 = b.clone();
-        let r = call(move || csl::PlutusData::from_bytes(b2)).to_json(|d| obj(vec![("to_bytes", jbytes(&d.to_bytes())), ("hash", jbytes(&csl::hash_plutus_data(&d).to_bytes()))]));
+        // also: the datum and a freshly built datum of the same value (other encoding, hence other hash) placed together in a witness set
+        let r = call(move || csl::PlutusData::from_bytes(b2)).to_json(|d| {
+            let mut m = obj(vec![("to_bytes", jbytes(&d.to_bytes())), ("hash", jbytes(&csl::hash_plutus_data(&d).to_bytes()))]);
+            let d1 = d.clone();
+            let both = call(move || -> Result<(Vec<u8>, Vec<u8>), csl::JsError> {
+                let fresh = csl::PlutusData::from_json(&d1.to_json(csl::PlutusDatumSchema::DetailedSchema)?, csl::PlutusDatumSchema::DetailedSchema)?;
+                let mut l = csl::PlutusList::new(); l.add(&d1); l.add(&fresh);
+                let mut ws = csl::TransactionWitnessSet::new(); ws.set_plutus_data(&l);
+                Ok((fresh.to_bytes(), ws.to_bytes()))
+            });
+            m.insert("pair".into(), both.to_json(|(c, w)| obj(vec![("fresh", jbytes(&c)), ("ws", jbytes(&w))])));
+            m
+        });
         out.ev(json!({"ev": "Datum", "sc": sc, "bytes": jbytes(&b), "r": r}));
         return;
     }
